@@ -65,6 +65,11 @@ def run(res, proofs_ok, proofs_why, only=None):
             diffs.append({"start": g, "variant": v, "impl": i, "model": m})
     if only is None:
         bad_inputs += file_part(res)
+        # as seen by a reader that stays attached while daemons come and go (the file left whole, cut short behind
+        # its header, cut inside it): every completed update changes the generation that reader sees - it obtains
+        # the record just published, not the one it had
+        from props import C03
+        C03.sequence_part(res, "C11")
     res.samples = [{"case": l, "impl": i, "model": m} for l, i, m in list(zip(lines, impl, model))[:3] + list(zip(lines, impl, model))[-3:]]
     res.traces_validated = len(lines) - len(diffs)
     res.oblige("correspondence:gen-exhaustive", not diffs)
